@@ -4,7 +4,4 @@ From JT.Base Require Import Prelude Fmt.
 From JT.Model Require Import Msg_simple Msg_text Params.
 
 Definition msg_all (u2g g2u : list N -> list N) (gdom : list N -> bool) (id ver d : N) : option msg :=
-  match id with
-  | 33027 => Some (m_8103 u2g g2u gdom)
-  | _ => msg_text u2g g2u gdom id ver d
-  end.
+  if id =? 0x8103 then Some (m_8103 u2g g2u gdom) else msg_text u2g g2u gdom id ver d.
